@@ -31,9 +31,13 @@ def minId : List Entry → Nat
   | [] => 2^64 - 1
   | e :: r => min e.id (minId r)
 
+/-- the last tile an entry addresses: `TileID + RunLength - 1` (uint64), the first one for run lengths ≤ 1 -/
+def lastId (e : Entry) : Nat := if e.rl > 1 then (e.id + e.rl - 1) % 2^64 else e.id
+
+/-- the highest addressed tile: the maximum over the ENDS of the runs (a run may reach into the next zoom) -/
 def maxId : List Entry → Nat
   | [] => 0
-  | e :: r => max e.id (maxId r)
+  | e :: r => max (lastId e) (maxId r)
 
 /-- the per-entry loop: `seen` = offsets added so far, `cur` = `currentOffset`; returns whether an
     entry error was recorded (outside the tile data section, or out of order when clustered) -/
